@@ -8,7 +8,8 @@ From Util Require Import Common.Base Common.ListLemmas Once.Model Once.Spec Once
 
 (* ---- Once: never two invocations of the callback at the same time.
    At most one goroutine is inside user code; more precisely at most one goroutine "holds" (is inside the callback,
-   has returned an error and not yet run its clear section, or has succeeded), and a goroutine inside the callback
+   has returned an error and not yet run its clear section, or has succeeded -- before, inside or after
+   SetResult), and a goroutine inside the callback
    is the one whose promise is the Once's current promise, still unresolved.  The window between the clear
    section and SetResult of a failed attempt is not "holding": a new attempt may start there, the old callback has
    returned. *)
@@ -26,7 +27,7 @@ Proof. exact cb_entry_needs_no_current. Qed.
 Print Assumptions c16_once_cb_entry_needs_no_current.
 
 (* ---- Once: success is final.  Once the callback of attempt g has returned a value v (succeeded: parked before
-   SetResult, or resolved), then in every future: the promise is never cleared, no callback is ever entered again
+   SetResult, inside SetResult between the swap of isDone and the publication, or resolved), then in every future: the promise is never cleared, no callback is ever entered again
    (the goroutine table does not grow), every value any caller returns is v read from that promise, and every
    caller whose critical section runs afterwards (started later, or parked at the gate, or already waiting on g)
    and whose context is live when it has returned, returned v.
@@ -122,11 +123,11 @@ Proof. exact memo_publish_before_close_all. Qed.
 Print Assumptions c16_memo_publish_before_close.
 
 (* ---- monitors vs. model.  BOUNDED (the unbounded model_satisfies_monitors is not proved): for every event sequence
-   accepted by the codec-level step, of length <= 7 from the initial state and of length <= 5 after each of six
-   prefixes that reach the interesting regions, the monitors of Spec.v report nothing on the model's own observations *)
+   accepted by the codec-level step, of length <= 7 from the initial state and of length <= 4 after each of eight
+   prefixes that reach the interesting regions (incl. the window inside SetResult), the monitors of Spec.v report nothing on the model's own observations *)
 Theorem c16_once_monitors_accept_model_bounded :
   N.ltb 0 (once_sweep 7 hinit monit) = true /\
-  forallb (fun p => N.ltb 0 (once_from p 5 hinit monit)) once_seeds = true.
+  forallb (fun p => N.ltb 0 (once_from p 4 hinit monit)) once_seeds = true.
 Proof. exact once_monitors_accept_model_bounded. Qed.
 Print Assumptions c16_once_monitors_accept_model_bounded.
 
@@ -139,25 +140,36 @@ Print Assumptions c16_memo_monitors_accept_model_bounded.
 Example c16_example_retry_window :
   let s := run [Resolve false; Sect 0; Resolve false; Sect 1;          (* callers 0,1 wait on attempt 0 *)
                 CbReturn 0 (RErr 7); GStep 0;                           (* error, clear section; SetResult pending *)
-                Resolve false; Sect 2; CbReturn 1 (RVal 5); GStep 1; WakeDone 2;   (* attempt 1 succeeds in the window *)
-                GStep 0; WakeDone 0; WakeDone 1;                        (* the old error is delivered to its waiters *)
+                Resolve false; Sect 2; CbReturn 1 (RVal 5); GStep 1; GStep 1; WakeDone 2;   (* attempt 1 succeeds in the window *)
+                GStep 0; GStep 0; WakeDone 0; WakeDone 1;               (* the old error is delivered to its waiters *)
                 Resolve false; Sect 3; WakeDone 3] in
   failed s 0 /\ succeeded s 1 5 /\ prom s = Some 1 /\ quiescent s = true /\
   map cp (cs s) = [CRet (RErr 7) (Some 0); CRet (RErr 7) (Some 0); CRet (RVal 5) (Some 1); CRet (RVal 5) (Some 1)].
 Proof.
   vm_compute. repeat split; try reflexivity.
-  - eexists. split; [reflexivity|]. right. eexists. split; reflexivity.
-  - eexists. split; [reflexivity|]. right. reflexivity.
+  - eexists. split; [reflexivity|]. right. right. eexists. split; reflexivity.
+  - eexists. split; [reflexivity|]. right. right. reflexivity.
 Qed.
 
 (* the spawner's context is cancelled: it returns Canceled, the attempt is resolved with Canceled, the other
    waiter goes round the loop and starts a new attempt with ITS context *)
 Example c16_example_spawner_cancelled :
   let s := run [Resolve false; Sect 0; Resolve false; Sect 1; CancelCtx 0; WakeCtx 0;
-                CbReturn 0 (RErr 3); GStep 0; GStep 0; WakeDone 1; Sect 1] in
+                CbReturn 0 (RErr 3); GStep 0; GStep 0; GStep 0; WakeDone 1; Sect 1] in
   map cp (cs s) = [CRet RCanceled None; CAwait 1] /\ map gp (gs s) = [GDone RCanceled; GInCb false] /\
   map gsp (gs s) = [0; 1] /\ prom s = Some 1 /\ quiescent s = true.
 Proof. vm_compute. repeat split; reflexivity. Qed.
+
+(* inside SetResult, after the swap and before the publication: the promise is still the current one, nobody can
+   read a result yet (a caller that reaches Await now blocks), and the state is not quiescent *)
+Example c16_example_setresult_window :
+  let s := run [Resolve false; Sect 0; CbReturn 0 (RVal 4); GStep 0; Resolve false; Sect 1; WakeDone 1; WakeDone 0] in
+  map gp (gs s) = [GPub (RVal 4)] /\ succeeded s 0 4 /\ prom s = Some 0 /\ done_res s 0 = None /\
+  map cp (cs s) = [CAwait 0; CAwait 0] /\ quiescent s = false /\
+  map cp (cs (fold_left step [GStep 0; WakeDone 1; WakeDone 0] s)) = [CRet (RVal 4) (Some 0); CRet (RVal 4) (Some 0)].
+Proof.
+  vm_compute. repeat split; try reflexivity. eexists. split; [reflexivity|]. right. left. reflexivity.
+Qed.
 
 (* a blocked caller at quiescence: its callback is inside user code *)
 Example c16_example_quiescent_blocked :
@@ -200,7 +212,20 @@ Example c16_monitor_rejects_early_return :
 Proof. vm_compute. reflexivity. Qed.
 (* and accept the corresponding traces of the unchanged library *)
 Example c16_monitor_accepts_window_history :
-  run_check_once [] [[1;0];[3;0;0];[1;0];[3;2;0];[5;1;1];[3;1;0];[1;0];[3;3;0];[5;4;0];[3;4;0];[3;1;0];[1;0];[3;5;0]]
-    [[1;0];[2;0;6;0];[2;0;6;0;1;0];[2;0;6;0;2;0];[2;0;7;0;2;0];[2;0;8;0;2;0];[2;0;8;0;2;0;1;0];[2;0;8;0;2;0;2;0;6;0];
-     [2;0;8;0;2;0;2;0;8;0];[2;0;8;0;2;0;3;5;9;0];[5;2;9;0;5;2;3;5;9;0];[5;2;9;0;5;2;3;5;9;0;1;0];[5;2;9;0;5;2;3;5;9;0;3;5]] = [].
+  run_check_once [] [[1;0];[3;0;0];[1;0];[3;2;0];[5;1;1];[3;1;0];[1;0];[3;3;0];[5;4;0];[3;4;0];[3;4;0];[3;1;0];[3;1;0];[1;0];[3;5;0]]
+    [[1;0];
+     [2;0;6;0];
+     [2;0;6;0;1;0];
+     [2;0;6;0;2;0];
+     [2;0;7;0;2;0];
+     [2;0;8;0;2;0];
+     [2;0;8;0;2;0;1;0];
+     [2;0;8;0;2;0;2;0;6;0];
+     [2;0;8;0;2;0;2;0;8;0];
+     [2;0;8;0;2;0;2;0;10;0];
+     [2;0;8;0;2;0;3;5;9;0];
+     [2;0;10;0;2;0;3;5;9;0];
+     [5;2;9;0;5;2;3;5;9;0];
+     [5;2;9;0;5;2;3;5;9;0;1;0];
+     [5;2;9;0;5;2;3;5;9;0;3;5]] = [].
 Proof. vm_compute. reflexivity. Qed.
